@@ -22,6 +22,23 @@ def check_cdiv(a: int, b: int) -> bool:
     return SH.cdiv(a, b) == ref_cdiv(a, b)
 
 
+def check_cdiv_wide(a: int, k: int, b: int) -> bool:
+    """
+    pre: 0 <= k < 4 and 1 <= b <= 7 and 0 <= a < 1024
+    post: _ == True
+    """
+    # dividends just above 2**53, 2**63, 2**64, 2**100 (where a float quotient is no longer exact), small divisors
+    big = [2 ** 53, 2 ** 63, 2 ** 64, 2 ** 100][pin4(k)] + a
+    return SH.cdiv(big, b) == ref_cdiv(big, b) and SH.cdiv(-big, b) == ref_cdiv(-big, b)
+
+
+def pin4(k):
+    for v in range(4):
+        if k == v:
+            return v
+    return 0
+
+
 def check_cmod(a: int, b: int) -> bool:
     """
     pre: b != 0
